@@ -263,7 +263,7 @@ func checkImage(sp *txSpec, out string, m manifest.Manifest, lastGood map[string
 	base := sp.outBase(out, m)
 	content := map[string][]byte{}
 	for _, f := range sp.Files {
-		content[f.P] = fileContent(sp.ContentSeed, f.P, f.N)
+		content[f.P] = fileContent(sp.ContentSeed, f.seedPath(), f.N)
 	}
 	for _, sf := range findSidecars(out, m, sp.Chunk) {
 		if sf.item == nil {
